@@ -55,6 +55,7 @@ Clause(s, e) ==
   ELSE IF op \in Readers THEN ReaderClause(s, e)
   ELSE IF obs.err # "" THEN "SM:raised:" \o op
   ELSE IF Len(obs.lists) # Len(exp.lists) THEN "SM:no-new-list:" \o op
+  ELSE IF "fresh" \in DOMAIN obs /\ ~obs.fresh THEN "SM:result-is-an-existing-list-object-not-a-new-list:" \o op
   ELSE IF op = "sample" /\ ~(IsSubSeqOf(obs.lists[n + 1].its, s.lists[e.x].its)
                              /\ Len(obs.lists[n + 1].its) = Min2(e.a.n, Len(s.lists[e.x].its)))
        THEN "SM:sample-not-an-ordered-sublist-of-min(n,len)-items"
